@@ -273,6 +273,7 @@ def run(ctx):
         if rec.get("expect") == "finding" and ok_ is not False:
             ctx.notes.append(f"recorded finding witness {os.path.basename(path)} no longer fails (stale entry)")
 
+    ctx.log('props and tables done')
     # ---- streams
     n_oracle = 120 if quick else 1500
     n_tie = 160 if quick else 1600
@@ -300,14 +301,18 @@ def run(ctx):
         rmeta.append(dict(prog=prog, script=script, nv=nv, status=res["status"]))
 
     for k in range(n_oracle):
-        prog, meta = nv_gen.gen_program(rng, dict(g1=g1_ok, g2=g2_ok, lreg=(k % 3 == 1), perm=(k % 3 == 2), nonq=(k % 2 == 0)))
+        prog, meta = nv_gen.gen_program(rng, dict(g1=g1_ok, g2=g2_ok, lreg=(k % 3 == 1), perm=(k % 3 == 2), nonq=(k % 4 == 0),
+                                                    late=(k % 4 == 1), loop0=(k % 6 == 2), burst=(k % 12 == 5)))
         if any(t[0] == "g2" and t[2][0] != "Q" for t in prog):
             stats["gate_operands_in_non_Q_banks"] = stats.get("gate_operands_in_non_Q_banks", 0) + 1
         if meta.get("perm"):
             stats["operand_registers_permuted"] = stats.get("operand_registers_permuted", 0) + 1
         if meta.get("lreg"):
             stats["load_add_only_register"] = stats.get("load_add_only_register", 0) + 1
-        if not nv_gen.sdk_shaped(prog):
+        for kind in ("late", "loop0", "burst"):
+            if meta.get(kind):
+                stats["shape_" + kind] = stats.get("shape_" + kind, 0) + 1
+        if not nv_gen.sdk_shaped(prog, meta.get("late")):
             stats["not_sdk_shaped"] = stats.get("not_sdk_shaped", 0) + 1
             continue
         script = [rng.randint(0, 1) for _ in range(meta["script_len"] * 4 + 2)]
@@ -336,13 +341,15 @@ def run(ctx):
     for k in range(n_tie):
         hw = rng.random() < 0.35
         prog, meta = tie_variants(rng, impl, dict(g2=["cnot", "cphase", "mov"], load=rng.random() < 0.3,
-                                                  lreg=rng.random() < 0.3, perm=rng.random() < 0.5, nonq=rng.random() < 0.5,
+                                                  lreg=rng.random() < 0.3, perm=rng.random() < 0.5, nonq=rng.random() < 0.4,
+                                                  late=rng.random() < 0.3, loop0=rng.random() < 0.2, burst=rng.random() < 0.05,
                                                   hw_safe=hw and rng.random() < 0.7))
         feat(prog)
         res = add_tie(prog, meta, rng.random() < 0.5, hw)
         ctx.note_case((str(prog), "tie", hw))
         stats["tie_" + ("ok" if res[0] == "ok" else f"err{res[1]}")] = stats.get("tie_" + ("ok" if res[0] == "ok" else f"err{res[1]}"), 0) + 1
     fault_stream(rng, impl, add_run, 30 if quick else 300)
+    ctx.log('implementation runs done')
 
     # ---- evaluate the model on the same cases inside Coq
     shard = 40
@@ -365,6 +372,7 @@ def run(ctx):
             continue
         mism_t += [k * shard + int(x) for x in re.findall(r"-?\d+", parts[0])]
         mism_r += [k * shard + int(x) for x in re.findall(r"-?\d+", parts[1])]
+    ctx.log('model evaluated on the case files')
     stats["tie_cases"] = len(tcases)
     stats["run_cases"] = len(rcases)
     ctx.coverage["stream_distribution"] = stats
@@ -428,8 +436,9 @@ def search(ctx, impl, g1_ok, g2_ok, suspects):
             if [v for v in ctx.violations if v["key"] is None]:
                 return
     for _ in range(400):
-        prog, meta = nv_gen.gen_program(rng, dict(g1=g1_ok, g2=g2_ok, lreg=rng.random() < 0.4, perm=rng.random() < 0.6, nonq=rng.random() < 0.6))
-        if not nv_gen.sdk_shaped(prog):
+        prog, meta = nv_gen.gen_program(rng, dict(g1=g1_ok, g2=g2_ok, lreg=rng.random() < 0.4, perm=rng.random() < 0.6, nonq=rng.random() < 0.4,
+                                                  late=rng.random() < 0.4, loop0=rng.random() < 0.3, burst=rng.random() < 0.15))
+        if not nv_gen.sdk_shaped(prog, meta.get("late")):
             continue
         script = [rng.randint(0, 1) for _ in range(meta["script_len"] * 4 + 2)]
         judge(ctx, impl, prog, script, meta["ncarbons"] + 1, rng.random() < 0.5)
